@@ -176,6 +176,41 @@ func (a *EpochBitmapAllocator) Release(ctx context.Context, subscriberID string)
 	return nil
 }
 
+// SetAllocation forcibly gives a subscriber exactly the given address, with the
+// current generation (for replaying records from the distributed store, as
+// IPAllocator.SetAllocation does in session mode).
+func (a *EpochBitmapAllocator) SetAllocation(subscriberID string, ip net.IP) error {
+	a.mu.Lock()
+	defer a.mu.Unlock()
+
+	idx, err := a.ipToIndex(ip)
+	if err != nil {
+		return err
+	}
+	if idx == 0 || idx == a.totalIPs-1 {
+		return fmt.Errorf("address %s is not allocatable", ip)
+	}
+
+	// Refuse an address that is live for another subscriber
+	if holder, exists := a.ipToSubscriber[idx]; exists && holder != subscriberID {
+		if !a.isGenerationFree(a.getGeneration(idx), a.freeThreshold()) {
+			return fmt.Errorf("address %s already allocated to %s", ip, holder)
+		}
+		delete(a.subscribers, holder) // expired holder
+	}
+
+	// Free the subscriber's previous address, if it moves
+	if oldIdx, exists := a.subscribers[subscriberID]; exists && oldIdx != idx {
+		a.setGeneration(oldIdx, (a.currentGeneration()+2)%4)
+		delete(a.ipToSubscriber, oldIdx)
+	}
+
+	a.setGeneration(idx, a.currentGeneration())
+	a.subscribers[subscriberID] = idx
+	a.ipToSubscriber[idx] = subscriberID
+	return nil
+}
+
 // Lookup returns the IP allocated to a subscriber, or nil if not found.
 func (a *EpochBitmapAllocator) Lookup(subscriberID string) net.IP {
 	a.mu.RLock()
